@@ -165,9 +165,58 @@ def gen():
                     add(path, i, l, re.match(r'^\s*', l).group(0) + '// ' + s, 'delete-stmt')
             if re.match(r'^return\b.*;$', s) is None and re.match(r'^(continue|break);$', s):
                 add(path, i, l, re.match(r'^\s*', l).group(0) + '// ' + s, 'delete-jump')
+    n1 = len(muts)
+    # ---- second generation: sibling methods, dropped conjuncts / disjuncts, inclusive ranges, Some -> None
+    SIB = [('is_in_out()', 'is_other_in_out()'), ('is_other_in_out()', 'is_in_out()'), ('.next(', '.prev('), ('.prev(', '.next('),
+           ('.first()', '.last()'), ('.last()', '.first()'), ('.0', '.1'), ('.1', '.0'), ('is_in_result()', 'is_left()'),
+           ('.exterior()', '.interiors().next().unwrap()'), ('get_prev_in_result()', 'get_other_event()'),
+           ('.is_empty()', '.len() == 1'), ('.unwrap_or(false)', '.unwrap_or(true)'), ('.pop()', '.peek().cloned()'),
+           ('Operation::Intersection', 'Operation::Union'), ('Operation::Union', 'Operation::Xor'), ('Operation::Difference', 'Operation::Xor'),
+           ('Operation::Xor', 'Operation::Difference'), ('.push(', '.insert(0, '), ('is_subject', 'is_exterior_ring'),
+           ('.insert(', '.remove(&'), ('.contains(', '.insert('), ('i32', 'i64'), ('.min()', '.max()'), ('.max()', '.min()'),
+           ('other1', 'other2'), ('other2', 'other1'), ('prev', 'next'), ('next', 'prev'), ('.len()', '.len() - 1'), ('pos', 'origin_pos')]
+    for path in FILES:
+        text = open(os.path.join(REPO, path)).read()
+        lines, idx = code_lines(text)
+        for i in idx:
+            l = lines[i]
+            code = l.split(' // ')[0]
+            for a_, b_ in SIB:
+                start = 0
+                while True:
+                    k = code.find(a_, start)
+                    if k < 0:
+                        break
+                    start = k + 1
+                    if a_[0].isalnum() and k > 0 and (code[k - 1].isalnum() or code[k - 1] == '_'):
+                        continue
+                    if a_[-1].isalnum() and k + len(a_) < len(code) and (code[k + len(a_)].isalnum() or code[k + len(a_)] == '_'):
+                        continue
+                    add(path, i, l, l[:k] + b_ + l[k + len(a_):], 'sibling:%s' % a_)
+            # drop one side of && / ||
+            for m in re.finditer(r' (&&|\|\|) ', code):
+                mm = re.match(r'^(\s*(?:\} else )?(?:if|while) )(.*)( \{\s*)$', l)
+                if mm and mm.start(2) <= m.start() < mm.end(2) and ' && ' not in mm.group(2).replace(m.group(0), '', 1) and ' || ' not in mm.group(2).replace(m.group(0), '', 1):
+                    left, right = l[mm.start(2):m.start()], l[m.end():mm.end(2)]
+                    add(path, i, l, mm.group(1) + left + mm.group(3), 'drop-right-operand')
+                    add(path, i, l, mm.group(1) + right + mm.group(3), 'drop-left-operand')
+            for m in re.finditer(r'(?<![.=])\.\.(?![.=])', code):
+                if re.search(r'\bfor\b|\[', code):
+                    add(path, i, l, l[:m.start()] + '..=' + l[m.end():], 'inclusive-range')
+            for m in re.finditer(r'\bSome\((?![a-z_]+\) =)', code):
+                # Some(expr) as a value (not a pattern): close the matching parenthesis
+                depth, j = 0, m.end() - 1
+                while j < len(code):
+                    depth += code[j] == '('
+                    depth -= code[j] == ')'
+                    if depth == 0:
+                        break
+                    j += 1
+                if depth == 0 and ' = ' not in code[j:j + 4] and '=>' not in code[j:]:
+                    add(path, i, l, l[:m.start()] + 'None' + l[j + 1:], 'some-to-none')
     os.makedirs(OUT, exist_ok=True)
     json.dump(muts, open(os.path.join(OUT, 'mutants.json'), 'w'), indent=0)
-    print('%d mutants' % len(muts))
+    print('%d mutants (%d first generation)' % (len(muts), n1))
 
 
 _tls = threading.local()
@@ -272,21 +321,21 @@ def check_one(m):
         shutil.rmtree(d, ignore_errors=True)
 
 
-def phase_check(jobs, redo_silent=False):
+def phase_check(jobs, redo_silent=False, status='survived', out='checked.json'):
     muts = load('mutants.json', [])
     tested = load('tested.json', {})
-    done = load('checked.json', {})
-    todo = [m for m in muts if tested.get(m['id']) == 'survived' and (m['id'] not in done or (redo_silent and not done[m['id']]))]
+    done = load(out, {})
+    todo = [m for m in muts if tested.get(m['id']) in status.split(',') and (m['id'] not in done or (redo_silent and not done[m['id']]))]
     n = 0
     with cf.ThreadPoolExecutor(jobs) as ex:
         for mid, det in ex.map(check_one, todo):
             done[mid] = det
             n += 1
             if n % 10 == 0:
-                json.dump(done, open(os.path.join(OUT, 'checked.json'), 'w'), indent=0)
+                json.dump(done, open(os.path.join(OUT, out), 'w'), indent=0)
                 print(n, len(todo), flush=True)
-    json.dump(done, open(os.path.join(OUT, 'checked.json'), 'w'), indent=0)
-    print('%d survivors, %d flagged by no check' % (len(done), sum(1 for v in done.values() if not v)))
+    json.dump(done, open(os.path.join(OUT, out), 'w'), indent=0)
+    print('%d mutants checked, %d flagged by no check' % (len(done), sum(1 for v in done.values() if not v)))
 
 
 def fn_of(path, line):
@@ -321,6 +370,9 @@ if __name__ == '__main__':
         phase_test(jobs)
     elif a[0] == 'check':
         phase_check(jobs, '--redo-silent' in a)
+    elif a[0] == 'check-killed':
+        # the mutants the tests kill (or that hang): certainly behaviour-changing, how many do the checks flag?
+        phase_check(jobs, '--redo-silent' in a, status='killed,timeout', out='checked_killed.json')
     elif a[0] == 'report':
         report()
     elif a[0] == 'one':
